@@ -131,7 +131,12 @@ class PhaseGen:
             if d["kind"] == "lcd" and r.random() < 0.7:
                 for row in range(r.choice([1, 2])):
                     style = r.choice(["scroll", "blink", "typewriter", "bounce"])
-                    lines.append(f'{nm}.animate("{style}", {row}, "hello world", speed_ms={r.choice([0, 50, 200])}, loop=True)')
+                    call = f'{nm}.animate("{style}", {row}, "hello world", speed_ms={r.choice([0, 50, 200])}, loop=True)'
+                    if r.random() < 0.4:
+                        # started from inside a helper function: the injected ticks must cover it all the same
+                        lines += [f"def start_anim{n_anim}():", "    " + call, f"start_anim{n_anim}()"]
+                    else:
+                        lines.append(call)
                     d["anims"] += 1
                     n_anim += 1
         self.no_millis_users = n_anim > 0
